@@ -434,7 +434,9 @@ class MultiCrossBlockRepeat(Block):
             if not isinstance(factor.name, HiddenName):
                 factor_test = True
                 sustain_count = self.sustain_count(factor)
-                for i in range(0, len(sample_objects[factor]), sustain_count):
+                # Every trial is tested: a factor that is held over `sustain_count` trials can
+                # depend on factors that are not.
+                for i in range(0, len(sample_objects[factor])):
                     factor_test &= factor.test_trial(i, sample_objects, sustain_count)
                 if not factor_test:
                     res.append(factor.name)
